@@ -86,26 +86,40 @@ def decide(ctx: Ctx, mod, a, import_error) -> int:
         dis = []
     else:
         dis = []
-        try:
-            if hasattr(mod, "prepare"):
-                mod.prepare(ctx)
-            dis = core.correspond(ctx, mod.correspondence(ctx)) if hasattr(mod, "correspondence") else []
-            if hasattr(mod, "custom_correspondence"):
-                dis = dis + list(mod.custom_correspondence(ctx))
-                ctx.disagreements = dis
-            violations.extend(mod.oracle(ctx))
-        except ToolFailure:
-            raise
-        except Exception as e:  # noqa: BLE001
-            # An exception that escapes from inside the implementation on an input the harness built as valid
-            # is the implementation failing, not the tool: report it with the traceback as the replay.
-            v = impl_exception_violation(e)
-            if v is None:
+        harness_errors: list[str] = []
+
+        def stage(name, fn):
+            """Run one stage of the check.  An exception escaping from the implementation on an input the harness built
+            as valid is the implementation failing (violation with the traceback as replay).  Any other exception is the
+            harness being unable to compare what the implementation returned (typically an output of unexpected shape
+            or type): the remaining stages still run, and if nothing else explains it the property is reported as no
+            longer shown to hold (never a silent tool failure)."""
+            try:
+                return fn()
+            except ToolFailure:
                 raise
-            violations.append(v)
+            except Exception as e:  # noqa: BLE001
+                v = impl_exception_violation(e)
+                if v is not None:
+                    violations.append(v)
+                else:
+                    harness_errors.append(f"{name}: " + "".join(traceback.format_exception(type(e), e, e.__traceback__)[-6:]))
+                return None
+
+        if hasattr(mod, "prepare"):
+            stage("prepare", lambda: mod.prepare(ctx))
+        if hasattr(mod, "correspondence"):
+            dis = stage("correspondence", lambda: core.correspond(ctx, mod.correspondence(ctx))) or []
+        if hasattr(mod, "custom_correspondence"):
+            dis = dis + (stage("custom_correspondence", lambda: list(mod.custom_correspondence(ctx))) or [])
+            ctx.disagreements = dis
+        stage("oracle", lambda: violations.extend(mod.oracle(ctx)))
     broken = []
     if lean and lean["failing"]:
         broken.append("lean: " + ", ".join(lean["failing"]))
+    if mod is not None and harness_errors:
+        broken.append("harness could not evaluate the implementation's answers: " + harness_errors[0][-600:])
+        ctx.notes.extend("harness exception in stage " + h[:300] for h in harness_errors)
     if dis:
         broken.append(f"correspondence: {len(dis)} disagreement(s), first: {json.dumps(dis[0], default=str)[:400]}")
     known = core.known_findings(prop)
@@ -118,12 +132,22 @@ def decide(ctx: Ctx, mod, a, import_error) -> int:
     if broken and not fresh() and mod is not None:
         # failing-input search at the deep budget, seeded with the disagreeing inputs
         ctx.notes.append("obligation/correspondence broken -> deep failing-input search")
-        violations.extend(mod.oracle(ctx, deep=True))
-        if hasattr(mod, "search"):
-            violations.extend(mod.search(ctx, dis, lean))
+        try:
+            violations.extend(mod.oracle(ctx, deep=True))
+            if hasattr(mod, "search"):
+                violations.extend(mod.search(ctx, dis, lean))
+        except ToolFailure:
+            raise
+        except Exception as e:  # noqa: BLE001
+            v = impl_exception_violation(e)
+            if v is not None:
+                violations.append(v)
+            else:
+                ctx.notes.append("harness exception in the deep search: " + repr(e)[:300])
     if broken and not fresh():
         violations.append(Violation(
-            "unproved:" + (lean["failing"][0] if lean and lean["failing"] else "correspondence"),
+            "unproved:" + (lean["failing"][0] if lean and lean["failing"] else
+                           ("correspondence" if dis else "harness-exception")),
             "property no longer shown to hold: " + "; ".join(broken),
             {"kind": "obligation", "broken": broken, "lean_failing": lean["failing"] if lean else [],
              "disagreements": dis[:5], "build_log_tail": (lean or {}).get("build_log", "")[-1500:]},
